@@ -7,7 +7,7 @@ import random
 from vf import cluster as C
 from vf import txn_sim as T
 
-ALPHABET = ["begin", "send:0", "send:1", "offsets:7", "commit", "abort", "ctx_ok:0", "ctx_exc:0", "ctx_slow:1", "ctx_slow_exc:1"]
+ALPHABET = ["begin", "send:0", "send:1", "burst:0+1:2", "offsets:7", "commit", "abort", "ctx_ok:0", "ctx_exc:0", "ctx_slow:1", "ctx_slow_exc:1"]
 
 
 def c16_faults():
@@ -52,7 +52,8 @@ def c07_program(rng: random.Random, tier="quick"):
             if r < 0.45:
                 prog.append(f"send:{rng.randrange(3)}")
             elif r < 0.7:
-                prog.append(f"burst:{rng.randrange(3)}:{rng.choice([2, 5, 12])}")
+                spread = rng.choice(["0+1", "0+1+2", "1+2"]) if rng.random() < 0.3 else str(rng.randrange(3))
+                prog.append(f"burst:{spread}:{rng.choice([2, 5, 12])}")
             elif r < 0.85:
                 prog.append(f"offsets:{rng.randint(1, 500)}")
             elif r < 0.95:
